@@ -104,7 +104,8 @@ PROPS["C10"] = {
     "probes": {"scan": ["parse::Parser::read_build", "parse::Parser::read"], "load": ["load::Loader::add_build"]},
     "level": "proof",
     "assumptions": SCAN_ASSUME + ["only the structural part is decided: the four input-section counts partition the input list and explicit_outs <= #outs (every subtraction in read_build is a discharged underflow obligation); which token lands in which section and escape rendering are NOT under contract; unit load: add_build maps the parsed counts one-to-one onto BuildIns/BuildOuts, the k-th input/output id names canon(eval(k-th parsed path)) in order, and cmdline/desc/depfile/pool/hide_success are the attributes `command`/`description`/`depfile`/`pool`/`hide_success` (in-body assertions before Graph::add_build; rspfile, deps and hide_progress are not asserted)",
-        "graph::Build's slice accessors (explicit/dirtying/ordering/validation) are proved in unit graph/sched (tagged C10)"],
+        "graph::Build's slice accessors (explicit/dirtying/ordering/validation) are proved in unit graph/sched (tagged C10)",
+        "NOT decided (found by the mutation sweep, DESIGN 10.9): the mapping `deps = msvc` -> parse_showincludes (Verus gives string-literal match patterns no link to the string's content); that the spaces following a `$`-newline continuation are skipped (Scanner::skip_spaces is specified for bounds and termination only)"],
 }
 DB_ASSUME = [
     "io model (trusted): Write::write_all appends all bytes or, on error/crash, a prefix; Read::read_exact fails only with UnexpectedEof and exactly when fewer bytes remain (no other I/O errors while loading); BufReader::stream_position reports the bytes consumed",
@@ -153,7 +154,8 @@ PROPS["C09"] = {
     "units": ["dirty", "task", "sched"],
     "probes": {"dirty": ["work::Work::record_finished", "work::Work::check_build_files_missing", "hash::build_manifest"], "task": ["task::extract_showincludes", "task::run_task"], "sched": ["work::Work::run"]},
     "level": "proof",
-    "assumptions": DIRTY_ASSUME + ["unit sched (Work::run): record_finished is only ever called with a report returned by Runner::wait (label rs::from_run, attached by the trusted wait stub) or, in `-t restat` adopt mode, with a report that repeats in order the names of the dependencies the step discovered in its last real run (ss::keeps_disc: D12, fixed; the precondition of the record_finished stub, tagged C09)",
+    "assumptions": DIRTY_ASSUME + ["NOT decided (mutation sweep, DESIGN 10.9): `deps = msvc` -> parse_showincludes in load::Loader::add_build (string-literal patterns), and the trailing `\\r` cut from a /showIncludes path (extract_showincludes is specified for which lines are notes and which output is shown, not for the exact bytes of each name)",
+        "unit sched (Work::run): record_finished is only ever called with a report returned by Runner::wait (label rs::from_run, attached by the trusted wait stub) or, in `-t restat` adopt mode, with a report that repeats in order the names of the dependencies the step discovered in its last real run (ss::keeps_disc: D12, fixed; the precondition of the record_finished stub, tagged C09)",
         "'discovered dependencies never change build order' is decided in unit sched (readiness is computed from ordering_ins only; tagged C01); persistence across invocations is unit db (C08: write_build/read_build carry the discovered list)",
         "unit task: extract_showincludes is proved to return as shown output exactly the lines that are not `Note: including file: ` lines, in order (si::shown over the trusted slice::split / strip_prefix / ends_with / to_vec wrappers), one reported name per note line, and never to panic on its [start..end] slice; " + TASK_ASSUME + "; read_depfile (iterator adapters) is NOT under contract: that the list it returns is what the depfile says is decided only up to depfile::parse (unit scan, C15)",
         "two spellings of one file map to one FileId through canonicalize_path (C13) + the trusted name->id map; here canon is an uninterpreted function"],
